@@ -70,6 +70,8 @@ def run(chk, repo: Repo):
                                 for r_ in ast.walk(f_) if isinstance(r_, ast.Return) and r_.value is not None)}
             if builders:
                 yield canon_keep(repo, _ci, _init, set(mod.functions) - builders)
+            # ... or the noise added by a module-level helper shared by sibling problems: every private helper inlined
+            yield canon_keep(repo, _ci, _init, set())
         from .common import best_of
         best_of(chk, _cands(), lambda t, v, _ci=ci: _provenance(t, repo, _ci, v))
     _r3(chk, repo)
